@@ -20,8 +20,9 @@ def pat_bindings(p, proj=()):
             yield from pat_bindings(x, proj + (('tup', i),))
     elif k == 'PTupleStruct':
         d = variant_name(p)
+        struct = 'Struct' in (p.get('defkind') or '')
         for i, x in enumerate(p['pats']):
-            yield from pat_bindings(x, proj + (('variant', d, i),))
+            yield from pat_bindings(x, proj + ((('tup', i),) if struct else (('variant', d, i),)))
     elif k == 'PStruct':
         d = variant_name(p)
         for f in p['fields']:
